@@ -25,8 +25,10 @@
 (*   pc % hs # dl $ lb { rb } lt < gt > sl / bs \ pp | ex ! dq " sq '      *)
 (*   lp ( rp ) ls [ rs ] cm ,  TX DC DF BK  the words text doc def block    *)
 (*   DEF DE2 BLK  whole well-formed tag heads <%def name="f()"> / <%block>  *)
-(*   v          exotic white space (VT FF NEL NBSP LS), generated documents *)
-(*              only and only between word filler                          *)
+(*   o          any other filler: neither word nor white space (ZWNBSP/BOM, *)
+(*              ZWSP, NUL, a combining mark, a non-BMP symbol, ~ ...)      *)
+(*   v          exotic white space (VT FF NEL NBSP LS PS): white space in a *)
+(*              tag head and before a line-leading %%, plain text elsewhere *)
 (*   IFT IFF FOR EIF EFR  whole control-line bodies `if True:` `if False:` *)
 (*              `for _ in (1, 2):` `endif` `endfor` (generated documents   *)
 (*              only; their inside belongs to C03/C05)                     *)
@@ -63,6 +65,8 @@ At(i) == IF i >= 1 /\ i <= N THEN txt[i] ELSE "EOF"
 Seg(i, j) == SubSeq(txt, i, j)
 Blank == {"sp", "tb"}
 Space == {"sp", "tb", "nl", "cr"}
+\* `v`: a character that is white space for Unicode (and for Python's \s) but not for Python source: VT NEL NBSP LS PS (FF)
+XSpace == Space \cup {"v"}
 Word  == {"w", "u", "TX", "DC", "DF", "BK"}
 Quote == {"dq", "sq"}
 TagAtoms == {"DEF", "DE2", "BLK"}
@@ -159,12 +163,12 @@ TextEnd(i) == IF i > N THEN N + 1
 \* attribute material of a tag head: (whitespace word-run | quoted string)*
 RECURSIVE Attrs(_)
 Attrs(i) == IF At(i) \in Quote THEN (LET j == Find(i + 1, <<txt[i]>>) IN IF j = 0 THEN i ELSE Attrs(j + 1))
-            ELSE LET j == Skip(i, Space) IN IF j > i /\ Skip(j, Word) > j THEN Attrs(Skip(j, Word)) ELSE i
+            ELSE LET j == Skip(i, XSpace) IN IF j > i /\ Skip(j, Word) > j THEN Attrs(Skip(j, Word)) ELSE i
 \* <% word-run attribute-material whitespace* (/)? >
 TagHead(p) ==
   LET w1 == p + 2  w2 == Skip(w1, Word) IN
   IF ~Starts(p, <<"lt", "pc">>) \/ w2 = w1 THEN [ok |-> FALSE]
-  ELSE LET a == Attrs(w2)  b == Skip(a, Space) IN
+  ELSE LET a == Attrs(w2)  b == Skip(a, XSpace) IN
        IF At(b) = "gt" THEN [ok |-> TRUE, kw |-> Seg(w1, w2 - 1), gt |-> b, selfc |-> FALSE, junk |-> a > w2]
        ELSE IF At(b) = "sl" /\ At(b + 1) = "gt" THEN [ok |-> TRUE, kw |-> Seg(w1, w2 - 1), gt |-> b + 1, selfc |-> TRUE, junk |-> a > w2]
        ELSE [ok |-> FALSE]
@@ -242,7 +246,8 @@ MatchExpression ==
      ELSE LET x == Seg(sp.x1, sp.x2)
               f == IF sp.f1 = 0 THEN <<>> ELSE Strip(Seg(sp.f1, sp.f2))
           IN Advance("Expr", sp.e + 1, <<Node("expr", pos, line, x) @@ [f |-> f]>>,
-                     <<"X(">> \o Strip(x) \o (IF f = <<>> THEN <<>> ELSE <<"X|">> \o f) \o <<")X">>, ostk, {})
+                     <<"X(">> \o Strip(x) \o (IF f = <<>> THEN <<>> ELSE <<"X|">> \o f) \o <<")X">>, ostk,
+                     IF \E k \in pos..sp.e : txt[k] = "v" THEN {"exotic-space-in-python"} ELSE {})
              /\ UNCHANGED <<tags, ctl>>
 
 \* a `%` line.  Content = the logical line after `%` and blanks.
@@ -327,7 +332,8 @@ MatchPythonBlock ==
          s == Scan(pos + 2 + m, <<>>, FALSE, FALSE)
      IN IF s.heof THEN Fail("ANY", pos, line, FALSE, {"hash-eof-block"})
         ELSE IF s.e = 0 THEN Fail(IF s.ill THEN "block-lexical" ELSE "unterminated-block", pos, line, TRUE, {})
-        ELSE Advance("Block", s.e + 2, <<Node("code", pos, line, Seg(pos + 2 + m, s.e - 1)) @@ [m |-> m]>>, <<>>, ostk, {})
+        ELSE Advance("Block", s.e + 2, <<Node("code", pos, line, Seg(pos + 2 + m, s.e - 1)) @@ [m |-> m]>>, <<>>, ostk,
+                     IF \E k \in pos..s.e : txt[k] = "v" THEN {"exotic-space-in-python"} ELSE {})
              /\ UNCHANGED <<tags, ctl>>
 
 \* line-leading %% (after optional blanks) yields one % fewer
@@ -344,7 +350,7 @@ MatchContinuation ==
 MatchText ==
   /\ ~fin /\ Rule(pos) = "Text"
   /\ \/ EmitText("Text", TextEnd(pos + 1), {})
-     \/ LET q == Skip(pos, Space) IN       \* unspecified: is `CR %%` a line-leading %% ?
+     \/ LET q == Skip(pos, XSpace) IN      \* unspecified: is `CR %%` / `NBSP %%` a line-leading %% ?
         /\ LineStart(pos) /\ q > pos /\ Starts(q, <<"pc", "pc">>) /\ TextEnd(pos + 1) > q
         /\ LET e == Skip(q + 2, {"pc"})  img == Seg(pos, q - 1) \o Seg(q + 1, e - 1) IN
            Advance("Percent", e, <<Node("text", pos, line, img)>>, img, ostk, {"cr-before-percent"}) /\ UNCHANGED <<tags, ctl>>
@@ -364,7 +370,7 @@ IsSubAt(b, p, e) == b = <<>> \/ \E i \in p..(e - 1) : i + Len(b) <= e /\ Seg(i, 
 ImageOK(s) ==
   CASE s.r = "Text" -> s.b = Seg(s.p, s.e - 1)
     [] s.r = "Percent" -> \E q \in s.p..(s.e - 2) : txt[q] = "pc" /\ txt[q + 1] = "pc" /\ s.b = Seg(s.p, q - 1) \o Seg(q + 1, s.e - 1)
-                                                     /\ \A k \in s.p..(q - 1) : txt[k] \in Space
+                                                     /\ \A k \in s.p..(q - 1) : txt[k] \in XSpace
     [] s.r = "TextTag" -> IsSubAt(s.b, s.p, s.e)
     [] s.r = "Expr" -> s.b[1] = "X(" /\ s.b[Len(s.b)] = ")X"
     [] OTHER -> s.b = <<>>
